@@ -572,7 +572,7 @@ var c03F64Pool = []uint64{
 }
 var c03F32Pool = []uint32{0x00000000, 0x3f800000, 0xbf800000, 0x40000000, 0x7f800000, 0xff800000, 0x7fc00000, 0x00000001, 0x7f7fffff, 0x3f800001}
 
-var c03Words = []string{"", "a", "b", "name", "null", "true", "1", "k k", "é", "class", "[1,2]", "id", "z"}
+var c03Words = []string{"", "a", "b", "name", "null", "true", "1", "k k", "é", "class", "[1,2]", "id", "z", "Name", "NAME", "A", "B", "Class"}
 
 func c03JSON(r *rand.Rand) string {
 	var v interface{}
